@@ -109,6 +109,8 @@ class Tr:
             if f == "np.nan_to_num" and len(args) == 1 and isinstance(args[0], ast.BinOp) and isinstance(args[0].op, ast.Div) \
                     and all(k.arg in ("nan", "posinf", "neginf") and ast.unparse(k.value) == "0" for k in n.keywords):
                 return f"(ElexModel.divz {self.expr(args[0].left)} {self.expr(args[0].right)})"
+            if f == "np.power" and len(args) == 2 and ast.unparse(args[1]) == "2":
+                return f"({self.expr(args[0])} * {self.expr(args[0])})"
             if f == "len" and len(args) == 1:
                 return f"(({self.expr(args[0])}.length : Nat) : Rat)"
             raise TranslateError(f"call {f}")
@@ -1279,6 +1281,16 @@ def gen_C15():
     out.append(_strlist("combine", [ast.unparse(assigned_expr(rec[0], "x"))] + [ast.unparse(s) for s in rec[0].orelse]))
     out.append(_strlist("empty_calibration", [ast.unparse(n.test) + " -> " + ast.unparse(n.body[-1]) for n in fit.body
                                               if isinstance(n, ast.If) and "n_conformalization_data == 0" in ast.unparse(n.test)]))
+    src3, tree3 = _parse("utils/math_utils.py")
+    ci = _find(tree3, None, "compute_inflate")
+    out.append(lean_def("compute_inflate", [("sumSq", "Rat"), ("total", "Rat")], "Rat",
+                        Tr(src3, {"np.sum(np.power(x, 2))": "sumSq", "np.sum(x)": "total"}).body(ci)))
+    wm = _find(tree3, None, "weighted_median")
+    out.append(_strlist("weighted_median_steps", [ast.unparse(s).replace("\n", " ")[:200] for s in wm.body if not isinstance(s, ast.Expr)]))
+    fitfn = _find(tree2, "GaussianModel", "_fit")
+    stats = [ast.unparse(n).replace("\n", " ")[:260] for n in ast.walk(fitfn) if isinstance(n, ast.Call)
+             and ast.unparse(n.func) in ("math_utils.weighted_median", "math_utils.compute_inflate", "math_utils.boot_sigma")]
+    out.append(_strlist("calibration_statistics", stats))
     cnt = _find(tree2, "GaussianModel", "_get_n_units_per_group")
     out.append(_strlist("group_counts", [ast.unparse(s).replace("\n", " ")[:300] for s in cnt.body if not isinstance(s, ast.Expr)]))
     return out
